@@ -7,6 +7,7 @@ package pipeline
 
 import (
 	"fmt"
+	"runtime"
 	"sync"
 	"sync/atomic"
 	"testing"
@@ -192,10 +193,13 @@ func genPool(t *rapid.T) PoolCase {
 		Kind:     rapid.SampledFrom([]string{"std", "low_memory"}).Draw(t, "kind"),
 		Capacity: rapid.IntRange(1, 8).Draw(t, "capacity"),
 	}
-	nw := rapid.IntRange(1, 6).Draw(t, "workers")
-	c.Hold = rapid.IntRange(1, max(1, c.Capacity/nw)).Draw(t, "hold")
+	// more workers than capacity on purpose: readers must queue up on the full pool while others take the
+	// fast path. A worker keeps at most Hold-1 events while it waits for the next one, so
+	// workers*(Hold-1) < capacity rules out a deadlock of the harness itself.
+	nw := rapid.IntRange(1, 32).Draw(t, "workers")
+	c.Hold = 1 + rapid.IntRange(0, (c.Capacity-1)/nw).Draw(t, "hold_extra")
 	for w := 0; w < nw; w++ {
-		n := rapid.IntRange(1, 30).Draw(t, "n")
+		n := rapid.IntRange(1, 120).Draw(t, "n")
 		sizes := make([]int, n)
 		for i := range sizes {
 			sizes[i] = rapid.SampledFrom([]int{0, 1, 2, 3, 63, 64, 65, 1000, 4095, 4096, 4097, 70000}).Draw(t, "size")
@@ -215,15 +219,19 @@ func runPool(c PoolCase) *vkit.Outcome {
 		x.wakeupInterval = 50 * time.Millisecond
 	}
 	defer p.stop()
-	var mu sync.Mutex
-	outstanding := map[*Event]int{} // pointer -> worker
-	maxOut := 0
-	saturated := false
+	// lock-free bookkeeping: a harness mutex around get/back would serialise away the very windows
+	// (fast path racing a woken waiter) this check is after
+	var outstanding, maxOut atomic.Int64
+	var owners sync.Map // *Event -> worker
+	var saturated atomic.Bool
+	var fmu sync.Mutex
 	var fails []string
 	fail := func(sig, msg string) {
-		mu.Lock()
-		fails = append(fails, sig+"|"+msg)
-		mu.Unlock()
+		fmu.Lock()
+		if len(fails) < 5 {
+			fails = append(fails, sig+"|"+msg)
+		}
+		fmu.Unlock()
 	}
 	var wg sync.WaitGroup
 	for w, sizes := range c.Workers {
@@ -234,35 +242,38 @@ func runPool(c PoolCase) *vkit.Outcome {
 			giveBack := func() {
 				e := mine[0]
 				mine = mine[1:]
-				mu.Lock()
-				delete(outstanding, e)
-				mu.Unlock()
+				owners.Delete(e)
+				outstanding.Add(-1)
 				p.back(e)
 			}
-			for _, sz := range sizes {
+			for i, sz := range sizes {
 				for len(mine) >= c.Hold {
 					giveBack()
 				}
 				e := p.get(sz)
-				mu.Lock()
-				if prev, dup := outstanding[e]; dup {
-					fails = append(fails, fmt.Sprintf("double-hand-out|event object %p handed to worker %d while worker %d still holds it", e, w, prev))
+				n := outstanding.Add(1)
+				if prev, dup := owners.LoadOrStore(e, w); dup {
+					fail("double-hand-out", fmt.Sprintf("event object %p handed to worker %d while worker %v still holds it", e, w, prev))
 				}
-				outstanding[e] = w
-				if len(outstanding) > maxOut {
-					maxOut = len(outstanding)
+				for {
+					m := maxOut.Load()
+					if n <= m || maxOut.CompareAndSwap(m, n) {
+						break
+					}
 				}
-				if len(outstanding) > c.Capacity {
-					fails = append(fails, fmt.Sprintf("capacity-exceeded|%d events handed out at once, capacity %d", len(outstanding), c.Capacity))
+				if n > int64(c.Capacity) {
+					fail("capacity-exceeded", fmt.Sprintf("%d events handed out at once, capacity %d", n, c.Capacity))
 				}
-				if len(outstanding) == c.Capacity {
-					saturated = true
+				if n == int64(c.Capacity) {
+					saturated.Store(true)
 				}
-				mu.Unlock()
 				if e.Size != sz {
 					fail("wrong-size", fmt.Sprintf("get(%d) returned an event with Size %d", sz, e.Size))
 				}
 				mine = append(mine, e)
+				if i%3 == 0 {
+					runtime.Gosched()
+				}
 			}
 			for len(mine) > 0 {
 				giveBack()
@@ -277,11 +288,10 @@ func runPool(c PoolCase) *vkit.Outcome {
 		o.Failf("C04", "pool-workers-wedged:"+c.Kind, "%s pool capacity %d: get/back workers did not finish within 30 s (in use %d, waiters %d)", c.Kind, c.Capacity, p.inUse(), p.waiters())
 		return o
 	}
-	mu.Lock()
-	defer mu.Unlock()
+	fmu.Lock()
+	defer fmu.Unlock()
 	for _, f := range fails {
-		var sig, msg string
-		fmt.Sscanf(f, "%s", &sig)
+		sig, msg := f, ""
 		for i := 0; i < len(f); i++ {
 			if f[i] == '|' {
 				sig, msg = f[:i], f[i+1:]
@@ -293,7 +303,7 @@ func runPool(c PoolCase) *vkit.Outcome {
 	if n := p.inUse(); n != 0 {
 		o.Failf("C05", "pool-in-use-not-zero:"+c.Kind, "all events were returned but the pool reports %d in use", n)
 	}
-	if saturated && len(c.Workers) >= 2 {
+	if saturated.Load() && len(c.Workers) >= 2 {
 		o.Nontrivial("C05")
 		o.Class("pool-saturated-concurrently")
 	}
